@@ -175,6 +175,33 @@ def run(ctx):
         except Exception as ex:
             ctx.violation('C15:exception:chart-edge:%s' % kind, type(ex).__name__ + ': ' + str(ex)[:160], data)
     ctx.traces += len(est)
+    # near the gimbal points: beta = 2^-e / pi - 2^-e on both sides of the library's threshold zero_eps
+    r = tlc.run('lie/MC_NearGimbal.tla', 'lie/MC_NearGimbal.cfg', dump=True, timeout=3000)
+    ctx.add_model('MC_NearGimbal', r)
+    nst = list(tlc.parse_dump(r))
+    if quick:
+        nst = rng.sample(nst, 6000)
+    for st in nst:
+        ang = st['ang']
+        al = 2 * math.atan2(ang['a'][1], ang['a'][0]) % (2 * math.pi)
+        ga = 2 * math.atan2(ang['g'][1], ang['g'][0]) % (2 * math.pi)
+        be = (math.pi - 2.0 ** -ang['e']) if ang['pi'] else 2.0 ** -ang['e']
+        kind = ('beta=pi-2^-e' if ang['pi'] else 'beta=2^-e') + (' inside zero_eps' if 2.0 ** -ang['e'] < 1e-7 else ' outside zero_eps')
+        data = dict(alpha_half=ang['a'], gamma_half=ang['g'], e=ang['e'], near_pi=ang['pi'], alpha=al, beta=be, gamma=ga)
+        ctx.case(('near', tuple(ang['a']), tuple(ang['g']), ang['e'], ang['pi']))
+        try:
+            R, U = G.angle_to_so3(al, be, ga), G.angle_to_su2(al, be, ga)
+            r3 = G.so3_to_angle(R)
+            if not np.all(np.isfinite(r3)) or core.gt(np.abs(G.angle_to_so3(*r3) - R).max(), 3e-7):
+                ctx.violation('C15:so3_to_angle:near-gimbal:%s' % kind, 'extract-then-rebuild does not return the rotation [%s]: deviation %.3g' % (kind, np.abs(G.angle_to_so3(*r3) - R).max()), data)
+            u3 = G.su2_to_angle(U)
+            U3 = G.angle_to_su2(*u3)
+            dev = min(np.abs(U3 - U).max(), np.abs(U3 + U).max())
+            if not np.all(np.isfinite(u3)) or core.gt(dev, 3e-7):
+                ctx.violation('C15:su2_to_angle:near-gimbal:%s' % kind, 'extract-then-rebuild does not return +-U [%s]: deviation %.3g' % (kind, dev), data)
+        except Exception as ex:
+            ctx.violation('C15:exception:near-gimbal:%s' % kind, type(ex).__name__ + ': ' + str(ex)[:160], data)
+    ctx.traces += len(nst)
     # representation property at exact products (numerical; both factors anchored exactly above)
     G = numqi.group
     for t in range(40 if quick else 400):
